@@ -1467,6 +1467,13 @@ func isAPIType(t types.Type) (*types.Named, bool) {
 			return n, true
 		}
 	}
+	if extra := os.Getenv("VERIF_C17R6_EXTRA_TYPES"); extra != "" { // development: explore further shared types
+		for _, e := range strings.Split(extra, ",") {
+			if pp+"."+n.Obj().Name() == e {
+				return n, true
+			}
+		}
+	}
 	return nil, false
 }
 
